@@ -16,6 +16,7 @@ from typing import cast, BinaryIO, Optional
 
 from wpull.backport.logging import StyleAdapter
 from wpull.body import Body
+from wpull.errors import ProtocolError
 from wpull.document.css import CSSReader
 from wpull.document.html import HTMLReader
 from wpull.path import anti_clobber_dir_path, parse_content_disposition, \
@@ -257,7 +258,7 @@ class BaseFileWriterSession(BaseWriterSession):
         # enums that appear to define this case, it is checked throughout
         # the code, but the HTTP function doesn't even use them.
         # FIXME: unit test is needed for this case
-        raise IOError(
+        raise ProtocolError(
             _('Server not able to continue file download: {filename}.')
             .format(filename=self._filename))
 
